@@ -233,6 +233,26 @@ def r11_r12_connect(repo, sink):
         sink.check(why is None, "R11", f"connect:{name}", f,
                    ok="status is CONNECTED iff all declared exchanges are done, CONNECTING iff something new was exchanged, else CONNECTING_IDLE",
                    bad=why or "")
+    # the initial pull asks for the composition start time (that is what producers publish for,
+    # next to their own start); without time components it falls back to the exchanged info's time
+    for nm, st_arg, want in (("composition-start", start, start), ("no-time-components", None, later)):
+        it = _CH(repo)
+        it.order.name(start, "t0", 0)
+        it.order.name(later, "t1", 1)
+        me, inputs, _o = _build(repo, it, {"A": (True, {})}, {}, ["A"], start)
+        inputs["A"].fields["_xinfo"] = _mk_info("xA", later)
+        it.log = []
+        try:
+            it.run(f, [st_arg], {}, self_obj=me)
+            pulls = [a for (_l, op, a) in it.log if op == "pull_data"]
+            ok = pulls == [(want,)]
+            why = f"initial pull requested {pulls!r}, expected [({want!r},)]"
+        except Raised as r:
+            ok, why = False, f"raises {r.name}"
+        sink.check(ok, "R11", f"initial-pull-time:{nm}", f,
+                   ok="initial pull asks for the composition start time (or the info time when there is none)",
+                   bad=why + ": producers publish their initial data for the composition start and their own start, "
+                             "a consumer starting later must still ask for the composition start")
     sink.note("R11.connect_calls_interpreted", n_calls)
     sink.floor("R11", "scripted connect scenarios", len(_scenarios()), 20)
     # exhaustiveness: the completeness test mentions every pending-state dictionary of the constructor
